@@ -4,6 +4,12 @@
 
 package location
 
+// Assumed contract of the dependency: matches lie inside the text (so an empty text has none).
+//@ extern func regexp::Regexp.FindAllIndex
+//@   pure
+//@   ensures len(b) == 0 ==> len(result) == 0
+//@   ensures forall k in 0..len(result): len(result[k]) == 2 && 0 <= result[k][0] && result[k][0] < result[k][1] && result[k][1] <= len(b)
+
 // Line/column from the list of line-terminator matches m (ascending, as returned by
 // FindAllIndex for the pattern \r\n|[\n\r]): with n = number of matches that start before
 // position, Line = 1 + n and Column = position + 1 - (end of the last such match, or 0).
